@@ -4,7 +4,7 @@ import locks
 import poolrace
 
 PROP = "C05"
-SPEC = ["Bng.Spec.C05", "Bng.Spec.C05Epoch", "Bng.Spec.C05FreeList", "Bng.Spec.C05Cluster", "Bng.Spec.C16PppoeWhole"] + ["Bng.Spec.C05Locks"]
+SPEC = ["Bng.Spec.C05", "Bng.Spec.C05Epoch", "Bng.Spec.C05FreeList", "Bng.Spec.C05Cluster", "Bng.Spec.C16PppoeWhole", "Bng.Spec.C16PppoePark"] + ["Bng.Spec.C05Locks"]
 MON = ["count", "total", "exhaustion", "lost"]
 # epoch (lease) allocator: Bng.LeaseSpec adds expiry/reclaimed to the pool monitor
 MON_EPOCH = ["count", "total", "exhaustion", "lost", "expiry", "reclaimed", "utilisation"]
